@@ -4,6 +4,7 @@ import (
 	"bytes"
 	"context"
 	"fmt"
+	"net"
 	"strings"
 	"sync"
 	"time"
@@ -11,7 +12,10 @@ import (
 	"github.com/plgd-dev/go-coap/v3/message"
 	"github.com/plgd-dev/go-coap/v3/message/codes"
 	"github.com/plgd-dev/go-coap/v3/message/pool"
+	coapNet "github.com/plgd-dev/go-coap/v3/net"
 	"github.com/plgd-dev/go-coap/v3/net/responsewriter"
+	tcpclient "github.com/plgd-dev/go-coap/v3/tcp/client"
+	tcpcoder "github.com/plgd-dev/go-coap/v3/tcp/coder"
 	"github.com/plgd-dev/go-coap/v3/udp/client"
 )
 
@@ -107,6 +111,13 @@ func c12Concurrent(rng *Rng, tr *poolTracker, callers, perCaller, peerReqs int) 
 		cwg.Add(1)
 		go func(c int) {
 			defer cwg.Done()
+			defer func() {
+				if recover() != nil {
+					okMu.Lock()
+					okAll = false
+					okMu.Unlock()
+				}
+			}()
 			for i := 0; i < perCaller; i++ {
 				ctx, cancel := context.WithTimeout(context.Background(), 3*time.Second)
 				req := mc.cc.AcquireMessage(ctx)
@@ -137,6 +148,80 @@ func c12Concurrent(rng *Rng, tr *poolTracker, callers, perCaller, peerReqs int) 
 	wg.Wait()
 	mc.sync()
 	return okAll
+}
+
+// c12TCP: a tcp/client.Conn over a net.Pipe; the peer answers pings with pongs and requests with 2.05.
+// The application pings and requests n times, holds every response and releases it.
+func c12TCP(tr *poolTracker, n int) {
+	c1, c2 := net.Pipe()
+	defer c2.Close()
+	peerDone := make(chan struct{})
+	go func() {
+		defer close(peerDone)
+		var buf []byte
+		tmp := make([]byte, 4096)
+		for {
+			k, err := c2.Read(tmp)
+			buf = append(buf, tmp[:k]...)
+			for {
+				var h tcpcoder.MessageHeader
+				if _, e := tcpcoder.DefaultCoder.DecodeHeader(buf, &h); e != nil || uint32(len(buf)) < h.MessageLength {
+					break
+				}
+				var m message.Message
+				m.Options = make(message.Options, 0, 16)
+				if _, e := tcpcoder.DefaultCoder.Decode(buf[:h.MessageLength], &m); e == nil {
+					var resp message.Message
+					switch {
+					case m.Code == codes.Ping:
+						resp = message.Message{Code: codes.Pong, Token: m.Token}
+					case m.Code >= codes.GET && m.Code <= codes.DELETE:
+						resp = message.Message{Code: codes.Content, Token: m.Token, Payload: []byte("tcp-resp")}
+					}
+					if resp.Code != 0 {
+						out := make([]byte, 128)
+						if l, e2 := tcpcoder.DefaultCoder.Encode(resp, out); e2 == nil {
+							_, _ = c2.Write(out[:l])
+						}
+					}
+				}
+				buf = buf[h.MessageLength:]
+			}
+			if err != nil {
+				return
+			}
+		}
+	}()
+	cfg := tcpclient.DefaultConfig
+	cfg.Errors = func(error) {}
+	cfg.MessagePool = pool.New(64, 2048)
+	cfg.DisableTCPSignalMessageCSM = true
+	cfg.DisablePeerTCPSignalMessageCSMs = true
+	cc := tcpclient.NewConnWithOpts(coapNet.NewConn(c1), &cfg)
+	runDone := make(chan struct{})
+	go func() { _ = cc.Run(); close(runDone) }()
+	for i := 0; i < n; i++ {
+		ctx, cancel := context.WithTimeout(context.Background(), 3*time.Second)
+		_ = cc.Ping(ctx)
+		resp, err := cc.Get(ctx, fmt.Sprintf("/t%d", i))
+		if err == nil {
+			tr.Hold(resp)
+			tr.Unhold(resp)
+			tr.AppRel(resp)
+			cc.ReleaseMessage(resp)
+		}
+		cancel()
+	}
+	_ = cc.Close()
+	select {
+	case <-runDone:
+	case <-time.After(3 * time.Second):
+	}
+	_ = c1.Close()
+	select {
+	case <-peerDone:
+	case <-time.After(time.Second):
+	}
 }
 
 func runC12(a runArgs) error {
@@ -195,6 +280,12 @@ func runC12(a runArgs) error {
 			tr.take()
 			runC06History(evs, ack, maxrt, nst)
 			emitTrace(a.only, "B")
+		case "T":
+			var n int
+			fmt.Sscanf(f[1], "%d", &n)
+			tr.take()
+			c12TCP(tr, n)
+			emitTrace(a.only, "T")
 		case "C":
 			var seed uint64
 			var callers, per, peers int
@@ -232,6 +323,20 @@ func runC12(a runArgs) error {
 			}
 			emitTrace(fmt.Sprintf("B#%d,%d,%d|%s", ack, maxrt, nst, strings.Join(parts, " ")), "B")
 		}
+	}
+	for _, c := range canonC06() {
+		tr.take()
+		runC06History(c.evs, c.ack, c.maxrt, c.nst)
+		parts := make([]string, len(c.evs))
+		for j, ev := range c.evs {
+			parts[j] = ev.desc()
+		}
+		emitTrace(fmt.Sprintf("B#%d,%d,%d|%s", c.ack, c.maxrt, c.nst, strings.Join(parts, " ")), "B")
+	}
+	for i := 0; i < 6; i++ {
+		tr.take()
+		c12TCP(tr, 3+i%3)
+		emitTrace(fmt.Sprintf("T#%d", 3+i%3), "T")
 	}
 	for i := 0; i < nC; i++ {
 		seed := rng.U64() % 1000000
